@@ -193,6 +193,14 @@ fn env_choice() -> bool {
     shuttle::rand::thread_rng().next_u64() & 1 == 1
 }
 
+pub(crate) fn env_choice_pub() -> bool {
+    if verif::controlled() {
+        env_choice()
+    } else {
+        true
+    }
+}
+
 fn count_task() {
     verif::TASKS_SPAWNED.with(|c| c.set(c.get() + 1));
 }
@@ -637,6 +645,36 @@ pub mod iter {
             }
         }
 
+        /// `try_for_each`: an item that fails makes the items that have not started yet
+        /// either run or be skipped (environment choice: real rayon checks its "full" flag
+        /// before each item); one of the failures is returned.
+        pub fn try_for_each<F, R>(self, op: F) -> R
+        where
+            F: Fn(I) -> R + Sync + Send,
+            R: ShimTry + Send,
+        {
+            let failed = std::sync::atomic::AtomicBool::new(false);
+            let first: std::sync::Mutex<Option<(usize, R)>> = std::sync::Mutex::new(None);
+            let (f, fr) = (&failed, &first);
+            self.enumerate().for_each(move |(i, x)| {
+                if f.load(std::sync::atomic::Ordering::SeqCst) && super::env_choice_pub() {
+                    return;
+                }
+                let r = op(x);
+                if !r.is_continue() {
+                    f.store(true, std::sync::atomic::Ordering::SeqCst);
+                    let mut g = fr.lock().unwrap();
+                    if g.as_ref().map_or(true, |(j, _)| i < *j) {
+                        *g = Some((i, r));
+                    }
+                }
+            });
+            match first.into_inner().unwrap() {
+                Some((_, r)) => r,
+                None => R::continue_value(),
+            }
+        }
+
         pub fn for_each_with<T, F>(self, init: T, op: F)
         where
             T: Send + Clone + Sync,
@@ -674,6 +712,28 @@ pub mod iter {
 
         pub fn is_empty(&self) -> bool {
             self.items.is_empty()
+        }
+    }
+
+    /// What `try_for_each` accepts as a result (rayon's private `Try`).
+    pub trait ShimTry {
+        fn is_continue(&self) -> bool;
+        fn continue_value() -> Self;
+    }
+    impl<E> ShimTry for Result<(), E> {
+        fn is_continue(&self) -> bool {
+            self.is_ok()
+        }
+        fn continue_value() -> Self {
+            Ok(())
+        }
+    }
+    impl ShimTry for Option<()> {
+        fn is_continue(&self) -> bool {
+            self.is_some()
+        }
+        fn continue_value() -> Self {
+            Some(())
         }
     }
 
